@@ -10,6 +10,8 @@ CONSTANTS
   Plus = "or"
   Times = "and"
   LeafKind = "bool"
+  CopyCap = 99
+  ElimAll = FALSE
   Param = FALSE
   Tag = "sp_orand"
 INVARIANT Inv_OracleInputs
